@@ -227,8 +227,9 @@ def run(ck):
         for d_ in fn.events("decl"):
             if not d_.get("var", "").startswith("__") and "__begin" in ((d_.get("init") or {}).get("t") or ""):
                 # `const auto& x = *__beginN` — pair it with the range of the same N
-                n_ = "".join(ch for ch in ((d_.get("init") or {}).get("t") or "") if ch.isdigit())
-                if any(r_.endswith(n_) for r_ in rng):
+                n_ = "".join(ch for ch in ((d_.get("init") or {}).get("t") or "").split("@")[0] if ch.isdigit())
+                sfx = ("@" + d_["var"].split("@", 1)[1]) if "@" in d_["var"] else ""
+                if any(r_.split("@")[0].endswith(n_) and (("@" + r_.split("@", 1)[1]) if "@" in r_ else "") == sfx for r_ in rng):
                     out_.add(d_["var"])
         return out_
 
@@ -258,7 +259,10 @@ def run(ck):
                         accept_edges.add((b.id, k_))
             mwres = {d_["var"] for d_ in g.events("decl") if strip_tmpl(d_.get("icall") or "") == "std::function::operator()" and "bool" in (d_.get("type") or "") + "bool"
                      and any(("v:" + rv_) in (d_.get("refs") or []) for rv_ in range_vars_over(g, R + "Router::middlewares"))}
-            if (t.get("core") or {}).get("v") in mwres and not t.get("cmp"):
+            # ... or the call of the middleware itself is the condition
+            direct = not t.get("cmp") and any(strip_tmpl(r_[2:]) == "std::function::operator()" for r_ in (t.get("leafrefs") or refs) if r_.startswith("c:")) and \
+                any(("v:" + rv_) in (t.get("leafrefs") or refs) for rv_ in range_vars_over(g, R + "Router::middlewares"))
+            if ((t.get("core") or {}).get("v") in mwres or direct) and not t.get("cmp"):
                 # the edge on which the middleware's result is false (`if (!result) return` or `if (result) continue; return`)
                 for k_ in (0, 1):
                     if ((k_ == 0) != bool(t.get("neg"))) is False and b.succs[k_] is not None:
@@ -331,8 +335,8 @@ def run(ck):
         vs = {d_["var"] for d_ in g.events("decl") if d_.get("var") and re.search(r"get<%d>\(" % n_, (d_.get("init") or {}).get("t") or "")}
         return lib.derived_vars(g, vs) if vs else set()
     t_ih = (ih[0].get("t") or "") if ih else ""
-    has1 = bool(re.search(r"get<1>\(", t_ih)) or any(re.search(r"\b%s\b" % re.escape(v_), t_ih) for v_ in from_get(1))
-    has2 = bool(re.search(r"get<2>\(", t_ih)) or any(re.search(r"\b%s\b" % re.escape(v_), t_ih) for v_ in from_get(2))
+    has1 = bool(re.search(r"get<1>\(", t_ih)) or any(re.search(r"\b%s\b" % re.escape(v_.split("@")[0]), t_ih) for v_ in from_get(1))
+    has2 = bool(re.search(r"get<2>\(", t_ih)) or any(re.search(r"\b%s\b" % re.escape(v_.split("@")[0]), t_ih) for v_ in from_get(2))
     ok = bool(ih) and has1 and has2
     ck.ob("C10-R3", "route/handler-gets-bindings", ok, ih[0].loc if ih else g.loc, g, "invokeHandler(Request(req, params, splats), resp)", nontrivial=False)
 
